@@ -26,7 +26,7 @@ RULE = ("architectures enumerated over (copy of the implementation, features, hi
         "blocks, type, ctx, multiplier, bn, dropout) tuples with features >= 2 in which at least one allowed dependency "
         "(j < i) was actually observed as reachable, i.e. the taint signal demonstrably propagates")
 ASSUMPTIONS = ["activations are monotone non-decreasing with positive derivative at the probe point (relu/tanh/elu/sigmoid)",
-               "torch autograd sums path products exactly enough not to underflow at these sizes (<= 8 layers, width <= 33)"]
+               "torch autograd sums path products exactly enough not to underflow at these sizes (<= 8 layers, width <= 520; weights 1/fan_in)"]
 REQUIRED_COUNTS = ["taint_architectures", "semantic_checks", "triangular_jacobians"]
 BUDGET = {"case_timeout": {"quick": 300, "thorough": 3000}}
 
@@ -70,6 +70,26 @@ def gen_cases(tier, seed):
     for i in range(n):
         cases.append({"kind": "taint", "archs": archs[i::n], "seed": env.subseed(seed, "c06", i), "world": "f64",
                       "cost": 3})
+    # wide networks: degree arithmetic beyond 255 (narrow integer types wrap), widths beyond one SIMD block
+    wide = []
+    for copy in ("transforms", "nde", "mog"):
+        for Fq, H in ((257, 256), (260, 300), (300, 300), (130, 520)):
+            for btype in ("residual", "ff", "ff_random"):
+                if btype == "residual" and H < Fq:
+                    continue
+                for nb in (1, 2):
+                    wide.append({"copy": copy, "F": Fq, "H": H, "nb": nb, "btype": btype, "draw": 0, "ctx": 0,
+                                 "mult": 1 if (Fq + nb) % 2 else 2, "bn": False, "dp": 0.0})
+    if tier == "quick":
+        rng = np.random.default_rng(seed + 5)
+        pick = []
+        for copy in ("transforms", "nde", "mog"):
+            cand = [a for a in wide if a["copy"] == copy and a["F"] >= 257]
+            for j in rng.permutation(len(cand))[:3]:
+                pick.append(cand[int(j)])
+        wide = pick
+    for i, a in enumerate(wide):
+        cases.append({"kind": "taint", "archs": [a], "seed": env.subseed(seed, "c06w", i), "world": "f64", "cost": 8})
     for i in range(8 if tier == "quick" else 100):
         cases.append({"kind": "triangular", "seed": env.subseed(seed, "c06tri", i), "world": "f64",
                       "n": 6 if tier == "quick" else 20, "cost": 2})
